@@ -47,12 +47,26 @@ struct ChanState {
     return_current: bool,
     confirm_mode: bool,
     publishes: u64,
+    /// a returned message whose first frames have been sent: (remaining bytes, record)
+    half: Option<(Vec<u8>, (u16, String, Vec<u8>))>,
 }
 
 fn done(r: Option<Rep>) -> Result<(), String> {
     match r {
         Some(Rep::Done(r)) => r,
         other => Err(format!("{:?}", other)),
+    }
+}
+
+/// Send the rest of a returned message that was begun earlier; it belongs to the listener
+/// that is current now, when it becomes complete.
+fn complete_half(c: &mut ChanState, h: &crate::mock::Handle, _res: &mut CaseResult) {
+    if let Some((rest, rec)) = c.half.take() {
+        h.inject(rest);
+        c.all_returns.push(rec.clone());
+        if c.return_current {
+            c.return_epochs.last_mut().unwrap().push(rec);
+        }
     }
 }
 
@@ -81,6 +95,7 @@ fn case(r: &mut Rng, racy: bool, res: &mut CaseResult) {
                 return_current: false,
                 confirm_mode: false,
                 publishes: 0,
+                half: None,
             }),
             Err(e) => {
                 res.inconclusive(format!("open_channel: {}", ek(&e)));
@@ -99,51 +114,73 @@ fn case(r: &mut Rng, racy: bool, res: &mut CaseResult) {
     for _ in 0..steps {
         let a = r.usize(0, chans.len() - 1);
         let chid = chans[a].actor.id;
-        match r.below(16) {
+        let kind = r.below(16);
+        // nothing else may be sent on a channel in the middle of a returned message (and a
+        // reply would be): finish it first - except for listener changes, which are the point
+        if (6..=11).contains(&kind) {
+            complete_half(&mut chans[a], &h, res);
+        }
+        let mid_return = chans[a].half.is_some();
+        if mid_return && kind <= 5 {
+            res.obs("listener_changes_in_the_middle_of_a_return", 1);
+        }
+        // "everything sent so far has been processed" / "the registration is installed":
+        // normally a reply on the channel itself; in the middle of a return a reply on
+        // another channel and the I/O thread's own batch log
+        let before_tok = count_token(io_thread, chid as usize);
+        macro_rules! settle {
+            (before) => {
+                if !racy {
+                    if mid_return {
+                        barrier0(&mut conn);
+                    } else {
+                        let _ = chans[a].actor.call(Cmd::Rpc);
+                    }
+                }
+            };
+            (after) => {
+                if !racy {
+                    if mid_return {
+                        wait_token(io_thread, chid as usize, before_tok);
+                    } else {
+                        let _ = chans[a].actor.call(Cmd::Rpc);
+                    }
+                }
+            };
+        }
+        match kind {
             0 | 1 => {
                 // (re)register a confirm listener
-                if !racy {
-                    let _ = chans[a].actor.call(Cmd::Rpc);
-                }
+                settle!(before);
                 if let Err(e) = done(chans[a].actor.call(Cmd::ListenConfirms)) {
                     res.violate("call_failed", format!("listen_for_publisher_confirms: {}", e));
                     break;
                 }
-                if !racy {
-                    // the registration travels the channel's FIFO; a reply behind it proves it is installed
-                    let _ = chans[a].actor.call(Cmd::Rpc);
-                }
+                // the registration travels the channel's FIFO; a reply behind it proves it is installed
+                settle!(after);
                 chans[a].confirm_epochs.push(vec![]);
                 chans[a].confirm_current = true;
                 log.push(format!("ch{} listen confirms", chid));
             }
             2 => {
-                if !racy {
-                    let _ = chans[a].actor.call(Cmd::Rpc);
-                }
+                settle!(before);
                 let _ = chans[a].actor.call(Cmd::DropConfirmListener);
                 chans[a].confirm_current = false;
                 log.push(format!("ch{} drop confirm listener", chid));
             }
             3 | 4 => {
-                if !racy {
-                    let _ = chans[a].actor.call(Cmd::Rpc);
-                }
+                settle!(before);
                 if let Err(e) = done(chans[a].actor.call(Cmd::ListenReturns)) {
                     res.violate("call_failed", format!("listen_for_returns: {}", e));
                     break;
                 }
-                if !racy {
-                    let _ = chans[a].actor.call(Cmd::Rpc);
-                }
+                settle!(after);
                 chans[a].return_epochs.push(vec![]);
                 chans[a].return_current = true;
                 log.push(format!("ch{} listen returns", chid));
             }
             5 => {
-                if !racy {
-                    let _ = chans[a].actor.call(Cmd::Rpc);
-                }
+                settle!(before);
                 let _ = chans[a].actor.call(Cmd::DropReturnListener);
                 chans[a].return_current = false;
                 log.push(format!("ch{} drop return listener", chid));
@@ -186,7 +223,18 @@ fn case(r: &mut Rng, racy: bool, res: &mut CaseResult) {
                     message_count: 0,
                 };
                 let code = r.next() as u16;
-                h.inject(return_frames(chid, code, "NO_ROUTE", &m, &even_partition(m.body.len(), 1000)).concat());
+                let frames = return_frames(chid, code, "NO_ROUTE", &m, &even_partition(m.body.len(), 1000));
+                if burst == 1 && frames.len() >= 2 && r.chance(1, 3) {
+                    // only the first frames now; the rest when something else has to be
+                    // sent on the channel (or at the end): listener changes may fall in between
+                    let k = r.usize(1, frames.len() - 1);
+                    h.inject(frames[..k].concat());
+                    chans[a].half = Some((frames[k..].concat(), (code, m.routing_key.clone(), m.body.clone())));
+                    res.obs("returns_sent", 1);
+                    res.obs("returns_sent_in_two_parts", 1);
+                    continue;
+                }
+                h.inject(frames.concat());
                 chans[a].all_returns.push((code, m.routing_key.clone(), m.body.clone()));
                 if chans[a].return_current {
                     chans[a].return_epochs.last_mut().unwrap().push((code, m.routing_key.clone(), m.body.clone()));
@@ -279,6 +327,9 @@ fn case(r: &mut Rng, racy: bool, res: &mut CaseResult) {
                 }
             }
         }
+    }
+    for c in chans.iter_mut() {
+        complete_half(c, &h, res);
     }
     // ---- everything must have been processed and the connection be undisturbed
     for c in &chans {
